@@ -57,6 +57,12 @@ fn gen(seed: u64, idx: u64, _tier: Tier) -> Plan {
     s.workers = 1 + rng.below(4) as i64;
     s.batch_size = *rng.pick(&[1i64, 8, 64]);
     process_settings(&mut rng, &mut s);
+    if rng.chance(1, 3) && s.seed_hex.chars().any(|c| matches!(c, 'a' | 'b' | 'c' | 'd' | 'f')) {
+        // the seed as an operator may write it: upper-case or mixed-case hexadecimal names the
+        // same 32 bytes, hence the same key (a seed YAML could read as a number stays quoted)
+        let mixed: String = s.seed_hex.chars().map(|c| if rng.chance(1, 2) { c.to_ascii_uppercase() } else { c }).collect();
+        s.seed_written = Some(if rng.chance(1, 2) { s.seed_hex.to_uppercase() } else { mixed });
+    }
     world_knobs(&mut rng, &mut plan, false);
     plan.world.flow_hash = None; // arbitrary distribution: reach every worker's certificate
     if idx % 3 == 1 {
